@@ -13,7 +13,7 @@ func init() {
 		ID:              "C02",
 		HangIsViolation: true,
 		Technique:       "exhaustive enumeration of labelled dependency digraphs (all graphs for n<=3, structured families up to 256 nodes), each executed as a real container start under a harness-owned iteration order; reference-model oracle + call/nesting budgets for termination",
-		Rule:            "programs = labelled digraphs over universal nodes (edge kinds: none / required by-name / optional by-name / slice member; self loops included) x base iteration orders; plus typed cycles: <=3 components implementing one interface, each holding a single-valued by-type point of that interface (required or optional; primary / named / default-named), with 0-2 holders of the same point that do not implement it (created first / last), ascending and descending order and every single order deviation; non-trivial = contains a cycle, a self loop or a fan-in >= 2; distinct = distinct (graph, order) pairs",
+		Rule:            "programs = labelled digraphs over universal nodes (edge kinds: none / required by-name / optional by-name / slice member; self loops included) x base iteration orders; plus typed cycles: <=3 components implementing one interface, each holding a single-valued by-type point of that interface (required or optional; primary / named / default-named), with 0-2 holders of the same point that do not implement it (created first / last), ascending and descending order and every single order deviation; non-trivial = contains a cycle, a self loop or a fan-in >= 2; distinct = distinct (graph, order) pairs. Families added in later rounds (look-ups inside Init, retries after an abandoned attempt, user extension points at every Order, several containers, odd names / types / values) are listed per part in this file and described in MANIFEST.json (level_claimed.text) and DESIGN §7",
 		Assumptions: []string{
 			"graphs beyond the enumerated sizes and families are not covered",
 			"post-processors do not substitute components in this family (C03 covers substitution)",
